@@ -80,13 +80,8 @@ def run_extent_ctor(rep, tier):
             stride = M * (4 if T == "float" else 8)
             cnt = None
             if len(news) == 1:
-                for x in c05.subterms(news[0].args[0]):
-                    if x[0] in ('call', 'fn') and x[1] and x[1].startswith("llvm.umul.with.overflow") and x[4] == ('ci', stride, 64):
-                        cnt = x[3]
-                    elif x[0] == 'op' and x[1] == 'mul' and x[4] == ('ci', stride, 64) and cnt is None:
-                        cnt = x[3]
-                    elif x[0] == 'op' and x[1] == 'shl' and x[4][0] == 'ci' and (1 << x[4][1]) == stride and cnt is None:
-                        cnt = x[3]
+                from .c12 import count_of
+                cnt = count_of(news[0].args[0], stride)          # the whole byte count, not a part of it
             if cnt is None:
                 why = "no single buffer allocation of (element count) x %d bytes" % stride
             else:
@@ -158,15 +153,8 @@ def run_array(rep, tier):
                 why = "owning_data_t(n) performs %d array allocations" % len(news)
             else:
                 a = news[0].args[0]
-                cnt = None
-                for x in c05.subterms(a):
-                    if x[0] in ('call', 'fn') and x[1] and x[1].startswith("llvm.umul.with.overflow") and x[4] == ('ci', stride, 64):
-                        cnt = x[3]
-                    elif x[0] == 'op' and x[1] in ('mul', 'shl') and cnt is None:
-                        if x[1] == 'mul' and x[4] == ('ci', stride, 64):
-                            cnt = x[3]
-                        if x[1] == 'shl' and x[4][0] == 'ci' and (1 << x[4][1]) == stride:
-                            cnt = x[3]
+                from .c12 import count_of
+                cnt = count_of(a, stride)
                 if cnt != ('arg', 0):
                     why = "allocates %s bytes, expected n*%d" % (ir.show(a)[:100], stride)
                 elif ir.ungate(st.get(0, ('undef',))) != ('arg', 0):
